@@ -596,6 +596,21 @@ func (ld *Loaded) analyseRunPoll(rs *runShape, bad func(ob, msg string, a ...int
 
 func (r *Run) structural(ld *Loaded, name string, probs []string, okNote string) {
 	o := &OblResult{Name: "z80.(*CPU)." + name, Layer: "P", Backend: "SSA/CFG analysis"}
+	if len(probs) == 1 && strings.HasPrefix(probs[0], "UNRECOGNISED: ") {
+		// the shape the structural argument is written for is not there.  If
+		// Run's contract - whose [property] invariant "not halted at the loop
+		// head" says the same thing deductively - was discharged in this run,
+		// that stands in; otherwise the obligation is undecided, not violated.
+		if c := ld.contracts["z80.(*CPU).Run"]; c != nil && c.Status == "discharged" {
+			o.Status, o.Backend = "discharged", "Run's contract (invariant !cpu.HALT at the loop head, discharged in this run)"
+			r.add(o)
+			return
+		}
+		r.mu.Lock()
+		r.Undecided = append(r.Undecided, "z80.(*CPU)."+name+": "+strings.TrimPrefix(probs[0], "UNRECOGNISED: "))
+		r.mu.Unlock()
+		return
+	}
 	if len(probs) == 0 {
 		o.Status = "discharged"
 		o.Note = okNote
@@ -628,30 +643,64 @@ func (ld *Loaded) runFootprint() []string {
 		return n
 	}
 	allowedRead := map[string]bool{"HALT": true, "BreakPoints": true, "States.SPR.PC": true, "States": true, "States.SPR": true}
-	for _, blk := range fn.Blocks {
-		for _, ins := range blk.Instrs {
-			switch i := ins.(type) {
-			case *ssa.Store:
-				if fa, ok := i.Addr.(*ssa.FieldAddr); ok {
-					if n := fieldName(fa); n != "HALT" {
-						probs = append(probs, "Run writes cpu."+n)
-					} else if c, ok := i.Val.(*ssa.Const); !ok || c.Value == nil || c.Value.String() != "false" {
-						probs = append(probs, "Run writes cpu.HALT with something other than false")
+	onCPU := func(fa *ssa.FieldAddr) bool {
+		var root ssa.Value = fa
+		for {
+			f, ok := root.(*ssa.FieldAddr)
+			if !ok {
+				break
+			}
+			root = f.X
+		}
+		pt, ok := root.Type().Underlying().(*types.Pointer)
+		if !ok {
+			return false
+		}
+		n, ok := pt.Elem().(*types.Named)
+		return ok && n.Obj().Name() == "CPU"
+	}
+	// Run and the helpers it calls (extracted predicates such as "PC is on a
+	// break point"), but not Step and what lies below it
+	seen := map[*ssa.Function]bool{}
+	var visit func(f *ssa.Function)
+	visit = func(f *ssa.Function) {
+		if seen[f] || f.Blocks == nil {
+			return
+		}
+		seen[f] = true
+		who := "Run"
+		if f != fn {
+			who = "Run (through " + f.Name() + ")"
+		}
+		for _, blk := range f.Blocks {
+			for _, ins := range blk.Instrs {
+				switch i := ins.(type) {
+				case *ssa.Store:
+					if fa, ok := i.Addr.(*ssa.FieldAddr); ok && onCPU(fa) {
+						if n := fieldName(fa); n != "HALT" {
+							probs = append(probs, who+" writes cpu."+n)
+						} else if c, ok := i.Val.(*ssa.Const); !ok || c.Value == nil || c.Value.String() != "false" {
+							probs = append(probs, who+" writes cpu.HALT with something other than false")
+						}
 					}
-				}
-			case *ssa.UnOp:
-				if fa, ok := i.X.(*ssa.FieldAddr); ok && i.Op.String() == "*" {
-					if n := fieldName(fa); !allowedRead[n] {
-						probs = append(probs, "Run reads cpu."+n)
+				case *ssa.UnOp:
+					if fa, ok := i.X.(*ssa.FieldAddr); ok && i.Op.String() == "*" && onCPU(fa) {
+						if n := fieldName(fa); !allowedRead[n] {
+							probs = append(probs, who+" reads cpu."+n)
+						}
 					}
-				}
-			case *ssa.Call:
-				if c := i.Call.StaticCallee(); c != nil && strings.HasPrefix(fullName(c), modPath) && c.Name() != "Step" {
-					probs = append(probs, "Run calls "+c.Name())
+				case *ssa.Call:
+					if c := i.Call.StaticCallee(); c != nil && strings.HasPrefix(fullName(c), modPath) && c.Name() != "Step" {
+						if ld.logOnly(c) {
+							continue
+						}
+						visit(c)
+					}
 				}
 			}
 		}
 	}
+	visit(fn)
 	return probs
 }
 
@@ -660,32 +709,84 @@ func (ld *Loaded) runFootprint() []string {
 // ("returns in the iteration that executes HALT"; contracts prove partial
 // correctness only, this is the one liveness fact the statements need).
 func (ld *Loaded) runHaltReturns() []string {
+	probs, found := ld.runHaltReturns2()
+	if !found {
+		probs = append(probs, "UNRECOGNISED: Run does not test the halted indication after Step in a form the analysis knows")
+	}
+	return probs
+}
+
+// haltTest: does the boolean SSA value equal (pos) / negate (!pos) the halted
+// indication - a load of cpu.HALT, a call of a helper that returns one, or a
+// negation / comparison with a constant of such a value?
+func (ld *Loaded) haltTest(v ssa.Value, depth int) (is, pos bool) {
+	if depth > 4 {
+		return false, false
+	}
+	switch u := v.(type) {
+	case *ssa.UnOp:
+		switch u.Op.String() {
+		case "*":
+			if fa, ok := u.X.(*ssa.FieldAddr); ok {
+				st := fa.X.Type().Underlying().(*types.Pointer).Elem().Underlying().(*types.Struct)
+				if st.Field(fa.Field).Name() == "HALT" {
+					return true, true
+				}
+			}
+		case "!":
+			is, pos := ld.haltTest(u.X, depth+1)
+			return is, !pos
+		}
+	case *ssa.BinOp:
+		if c, ok := u.Y.(*ssa.Const); ok && c.Value != nil && (u.Op.String() == "==" || u.Op.String() == "!=") {
+			is, pos := ld.haltTest(u.X, depth+1)
+			if is {
+				same := (c.Value.String() == "true") == (u.Op.String() == "==")
+				return true, pos == same
+			}
+		}
+	case *ssa.Call:
+		c := u.Call.StaticCallee()
+		if c == nil || c.Blocks == nil || !strings.HasPrefix(fullName(c), modPath) {
+			return false, false
+		}
+		first, res := true, false
+		for _, blk := range c.Blocks {
+			for _, ins := range blk.Instrs {
+				if ret, ok := ins.(*ssa.Return); ok {
+					if len(ret.Results) != 1 {
+						return false, false
+					}
+					is, pos := ld.haltTest(ret.Results[0], depth+1)
+					if !is || !first && pos != res {
+						return false, false
+					}
+					first, res = false, pos
+				}
+			}
+		}
+		return !first, res
+	}
+	return false, false
+}
+
+func (ld *Loaded) runHaltReturns2() (probs []string, found bool) {
 	fn := ld.funcByKey("z80.(*CPU).Run")
 	if fn == nil {
-		return []string{"no function (*CPU).Run"}
+		return []string{"no function (*CPU).Run"}, true
 	}
 	fi := analyze(fn)
-	var probs []string
-	found := false
 	for _, blk := range fn.Blocks {
 		ifi, ok := blk.Instrs[len(blk.Instrs)-1].(*ssa.If)
 		if !ok {
 			continue
 		}
-		ld0, ok := ifi.Cond.(*ssa.UnOp)
-		if !ok || ld0.Op.String() != "*" {
-			continue
-		}
-		fa, ok := ld0.X.(*ssa.FieldAddr)
-		if !ok {
-			continue
-		}
-		st := fa.X.Type().Underlying().(*types.Pointer).Elem().Underlying().(*types.Struct)
-		if st.Field(fa.Field).Name() != "HALT" {
+		is, pos := ld.haltTest(ifi.Cond, 0)
+		if !is {
 			continue
 		}
 		found = true
-		// from the true successor every path must return before any loop header
+		// from the "halted" successor every path must return before any loop header
 		seen := map[*ssa.BasicBlock]bool{}
 		var walk func(b *ssa.BasicBlock)
 		walk = func(b *ssa.BasicBlock) {
@@ -701,12 +802,13 @@ func (ld *Loaded) runHaltReturns() []string {
 				walk(s)
 			}
 		}
-		walk(blk.Succs[0])
+		if pos {
+			walk(blk.Succs[0])
+		} else {
+			walk(blk.Succs[1])
+		}
 	}
-	if !found {
-		probs = append(probs, "Run does not test the halted indication after Step")
-	}
-	return probs
+	return probs, found
 }
 
 func init() {
